@@ -45,5 +45,8 @@ Run(c0, g0, n, step) == {<<c0 + i, g0 + i * step>> : i \in 0..(n - 1)}
 RunsQ == { Run(32, 3, 6, 1), Run(32, 40, 6, -1), Run(65, 7, 3, 0) \cup {<<70, 7>>},
            Run(1, 32769, 3, 1), Run(0, 32767, 4, 1), Run(32766, 1, 4, 1), Run(65530, 65530, 5, 0),
            Run(65531, 10, 4, 1) \cup Run(65536, 20, 2, 1), Run(1, 3, 2, -1) \cup Run(3, 4, 5, 1) \cup Run(8, 2, 2, 7),
-           Run(1114110, 5, 2, 1), Run(100, 65534, 2, 0) \cup {<<102, 1>>} }
+           Run(1114110, 5, 2, 1), Run(100, 65534, 2, 0) \cup {<<102, 1>>},
+           \* both sides of the surrogate gap (U+D7FF / U+E000), glyph ids continuing or not
+           Run(55294, 10, 2, 1) \cup Run(57344, 12, 2, 1), Run(55295, 3, 1, 1) \cup Run(57344, 4, 1, 1),
+           Run(55295, 9, 1, 1) \cup Run(57344, 2, 3, 1), Run(65533, 7, 2, 1) \cup Run(65536, 9, 2, 1) }
 =============================================================================
